@@ -302,7 +302,8 @@ func runScenario(cs *core.Case, r *rand.Rand, o scenarioOpts, tag string) *finge
 		}
 		ch, err := chainkit.New(gen, o.NVals, base, cfg.Cache, cfg.Name)
 		if err == nil && recLog != nil {
-			ct = newCrashTracker(o.Long.Crash, cfg, recLog, ch)
+			ct = newCrashTracker(o.Long.Crash, cfg, gen, o.NVals, recLog, ch)
+			defer ct.close() // (whichever way the scenario ends, the nodes restarted on crash images are waited for)
 		}
 		if err != nil {
 			run.Inconclusive(fmt.Sprintf("cannot build replica %s: %v", cfg.Name, err))
@@ -707,7 +708,7 @@ func runScenario(cs *core.Case, r *rand.Rand, o scenarioOpts, tag string) *finge
 			}
 		}
 		if ct != nil {
-			ct.refs = append(ct.refs, crashRef{blk: blk, ps: ps, seen: seen, appHash: rs.chains[0].State.AppHash, info: x0.info, pub: x0.pub, appvals: x0.appvals,
+			ct.afterHeight(run, h, crashRef{blk: blk, ps: ps, seen: seen, appHash: rs.chains[0].State.AppHash, info: x0.info, pub: x0.pub, appvals: x0.appvals,
 				state: x0.state, loaded: x0.loaded, st: rs.chains[0].State.Copy()})
 		}
 		// ---- what was reached
@@ -797,7 +798,7 @@ func runScenario(cs *core.Case, r *rand.Rand, o scenarioOpts, tag string) *finge
 	if lo != nil {
 		lo.finish(o.Heights)
 	}
-	if ct != nil && !ct.run(cs, gen, o.NVals, wit) {
+	if ct != nil && !ct.finish(cs, wit) {
 		return nil
 	}
 	if (cs.I < 2 && tag == "first") || (cs.I == 0 && (tag == "corpus" || tag == "valreports" || tag == "long")) {
